@@ -986,5 +986,9 @@ func run(c *Ctx) error {
 		return err
 	}
 	// translator cross-check: the generated getValidatorOrder (C15/Tie.v) against the compiled one
-	return fraglib.ValidatorOrder(c)
+	if err := fraglib.ValidatorOrder(c); err != nil {
+		return err
+	}
+	// last: chainlib.Init sets the global consensus parameters
+	return chainStage(c)
 }
